@@ -56,7 +56,9 @@ def initHashes : List (String × String) :=
     interp/gta.go gta `case defineXStmt:` — while the callee's type is incomplete
       `revisit = append(revisit, n); return false` (e843e3f, F15-7), then `compDefineX`, then for the
       declared names `sym.global, sym.node = true, n` (2be263c, F15-1/2);
-    interp/ast.go ast `case token.VAR:` `if anc.node != nil && anc.node.kind == fileStmt { a.Specs = splitVarSpecs(a.Specs) }` (14ebac5, F15-3) -/
+    interp/ast.go ast `case token.VAR:` `if anc.node != nil && anc.node.kind == fileStmt { a.Specs = splitVarSpecs(a.Specs) }` (14ebac5, F15-3);
+    interp/cfg.go genGlobalVarDecl `for _, n := range nodes { deps[n] = getVarDependencies(n, sc) }`: every
+      specification, a variable initialised by a function literal included (`collectSkip := .none`) -/
 def depFacts : DepFacts :=
   { resolve := .lexical,
     followFuncs := true,
@@ -64,7 +66,8 @@ def depFacts : DepFacts :=
     skipSelf := false,
     multiGlobal := true,
     multiRetry := true,
-    splitPaired := true }
+    splitPaired := true,
+    collectSkip := .none }
 
 /-- the same decisions as the code made them before round 3 (what the extractor reads from the
     parent of a9bfd4c); used by the regression examples that reproduce the repaired findings -/
@@ -75,7 +78,8 @@ def depFactsBefore : DepFacts :=
     skipSelf := true,
     multiGlobal := false,
     multiRetry := false,
-    splitPaired := false }
+    splitPaired := false,
+    collectSkip := .none }
 
 /-- fingerprints of the statements `depFacts` was read from (`getVarDependencies` is in `sourceHashes`)
     and of `compDefineX` (as of 2d7bcd6: for `var v, ok = m[k]` / `<-c` it asks `nodeType` for the type
